@@ -1708,4 +1708,292 @@ def region32_translate_clamp_step (x : Int) (y : Int) (x1 : Int) (x2 : Int) (y1 
       let pbox := (pbox + 1) % 18446744073709551616
       (1, x1, x2, y1, y2, nbox, pbox, pbox_out, out_x1, out_y1, out_x2, out_y2, num_rects)
 
+/-- `pixman/pixman-region32.c:pixman_region_intersect_o`, one iteration of loop #0 (mixed mode).  Arguments: r1_end : uint64_t, r2_end : uint64_t, y1 : int32_t, y2 : int32_t, r1 : uint64_t, r2 : uint64_t, r1_x1 : int32_t, r2_x1 : int32_t, r1_x2 : int32_t, r2_x2 : int32_t.  Result: (status : 0 loop ends / 1 next iteration / 2.. n-th return, x1 : int32_t, x2 : int32_t, new1_0 : int32_t, new1_1 : int32_t, new1_2 : int32_t, new1_3 : int32_t, new1_done : uint32_t, r1 : uint64_t, r2 : uint64_t). -/
+def region32_intersect_o_step (r1_end : Nat) (r2_end : Nat) (y1 : Int) (y2 : Int) (r1 : Nat) (r2 : Nat) (r1_x1 : Int) (r2_x1 : Int) (r1_x2 : Int) (r2_x2 : Int) : Int × Int × Int × Int × Int × Int × Int × Nat × Nat × Nat :=
+  let new1_0 := 0
+  let new1_1 := 0
+  let new1_2 := 0
+  let new1_3 := 0
+  let new1_done := 0
+  let x1 := if r1_x1 > r2_x1 then r1_x1 else r2_x1
+  let x2 := if r1_x2 < r2_x2 then r1_x2 else r2_x2
+  let j1 := if x1 < x2 then
+      let new1_0 := x1
+      let new1_1 := y1
+      let new1_2 := x2
+      let new1_3 := y2
+      let new1_done := 1
+      (new1_0, new1_1, new1_2, new1_3, new1_done)
+    else
+      (new1_0, new1_1, new1_2, new1_3, new1_done)
+  let new1_0 := j1.1
+  let new1_1 := j1.2.1
+  let new1_2 := j1.2.2.1
+  let new1_3 := j1.2.2.2.1
+  let new1_done := j1.2.2.2.2
+  let r1 := if r1_x2 = x2 then
+      (r1 + 1) % 18446744073709551616
+    else
+      r1
+  let r2 := if r2_x2 = x2 then
+      (r2 + 1) % 18446744073709551616
+    else
+      r2
+  if (r1 ≠ r1_end) ∧ (r2 ≠ r2_end) then
+    (1, x1, x2, new1_0, new1_1, new1_2, new1_3, new1_done, r1, r2)
+  else
+    (0, x1, x2, new1_0, new1_1, new1_2, new1_3, new1_done, r1, r2)
+
+/-- `pixman/pixman-region32.c:pixman_region_union_o`, one iteration of loop #0 (mixed mode).  Arguments: r1_end : uint64_t, r2_end : uint64_t, y1 : int32_t, y2 : int32_t, x1 : int32_t, x2 : int32_t, r1 : uint64_t, r2 : uint64_t, r1_x1 : int32_t, r2_x1 : int32_t, r1_x2 : int32_t, r2_x2 : int32_t.  Result: (status : 0 loop ends / 1 next iteration / 2.. n-th return, x1 : int32_t, x2 : int32_t, new1_0 : int32_t, new1_1 : int32_t, new1_2 : int32_t, new1_3 : int32_t, new1_done : uint32_t, new2_0 : int32_t, new2_1 : int32_t, new2_2 : int32_t, new2_3 : int32_t, new2_done : uint32_t, r1 : uint64_t, r2 : uint64_t). -/
+def region32_union_o_both_step (r1_end : Nat) (r2_end : Nat) (y1 : Int) (y2 : Int) (x1 : Int) (x2 : Int) (r1 : Nat) (r2 : Nat) (r1_x1 : Int) (r2_x1 : Int) (r1_x2 : Int) (r2_x2 : Int) : Int × Int × Int × Int × Int × Int × Int × Nat × Int × Int × Int × Int × Nat × Nat × Nat :=
+  let new1_0 := 0
+  let new1_1 := 0
+  let new1_2 := 0
+  let new1_3 := 0
+  let new1_done := 0
+  let new2_0 := 0
+  let new2_1 := 0
+  let new2_2 := 0
+  let new2_3 := 0
+  let new2_done := 0
+  if ¬((r1 ≠ r1_end) ∧ (r2 ≠ r2_end)) then
+    (0, x1, x2, new1_0, new1_1, new1_2, new1_3, new1_done, new2_0, new2_1, new2_2, new2_3, new2_done, r1, r2)
+  else
+    if r1_x1 < r2_x1 then
+      let j1 := if r1_x1 ≤ x2 then
+          if x2 < r1_x2 then
+            let x2 := r1_x2
+            (x2, new1_0, new1_1, new1_2, new1_3, new1_done, x1)
+          else
+            (x2, new1_0, new1_1, new1_2, new1_3, new1_done, x1)
+        else
+          let new1_0 := x1
+          let new1_1 := y1
+          let new1_2 := x2
+          let new1_3 := y2
+          let new1_done := 1
+          let x1 := r1_x1
+          let x2 := r1_x2
+          (x2, new1_0, new1_1, new1_2, new1_3, new1_done, x1)
+      let x2 := j1.1
+      let new1_0 := j1.2.1
+      let new1_1 := j1.2.2.1
+      let new1_2 := j1.2.2.2.1
+      let new1_3 := j1.2.2.2.2.1
+      let new1_done := j1.2.2.2.2.2.1
+      let x1 := j1.2.2.2.2.2.2
+      let r1 := (r1 + 1) % 18446744073709551616
+      (1, x1, x2, new1_0, new1_1, new1_2, new1_3, new1_done, new2_0, new2_1, new2_2, new2_3, new2_done, r1, r2)
+    else
+      let j2 := if r2_x1 ≤ x2 then
+          if x2 < r2_x2 then
+            let x2 := r2_x2
+            (x2, new2_0, new2_1, new2_2, new2_3, new2_done, x1)
+          else
+            (x2, new2_0, new2_1, new2_2, new2_3, new2_done, x1)
+        else
+          let new2_0 := x1
+          let new2_1 := y1
+          let new2_2 := x2
+          let new2_3 := y2
+          let new2_done := 1
+          let x1 := r2_x1
+          let x2 := r2_x2
+          (x2, new2_0, new2_1, new2_2, new2_3, new2_done, x1)
+      let x2 := j2.1
+      let new2_0 := j2.2.1
+      let new2_1 := j2.2.2.1
+      let new2_2 := j2.2.2.2.1
+      let new2_3 := j2.2.2.2.2.1
+      let new2_done := j2.2.2.2.2.2.1
+      let x1 := j2.2.2.2.2.2.2
+      let r2 := (r2 + 1) % 18446744073709551616
+      (1, x1, x2, new1_0, new1_1, new1_2, new1_3, new1_done, new2_0, new2_1, new2_2, new2_3, new2_done, r1, r2)
+
+/-- `pixman/pixman-region32.c:pixman_region_union_o`, one iteration of loop #1 (mixed mode).  Arguments: r1_end : uint64_t, y1 : int32_t, y2 : int32_t, x1 : int32_t, x2 : int32_t, r1 : uint64_t, r1_x1 : int32_t, r1_x2 : int32_t.  Result: (status : 0 loop ends / 1 next iteration / 2.. n-th return, x1 : int32_t, x2 : int32_t, new1_0 : int32_t, new1_1 : int32_t, new1_2 : int32_t, new1_3 : int32_t, new1_done : uint32_t, r1 : uint64_t). -/
+def region32_union_o_r1_step (r1_end : Nat) (y1 : Int) (y2 : Int) (x1 : Int) (x2 : Int) (r1 : Nat) (r1_x1 : Int) (r1_x2 : Int) : Int × Int × Int × Int × Int × Int × Int × Nat × Nat :=
+  let new1_0 := 0
+  let new1_1 := 0
+  let new1_2 := 0
+  let new1_3 := 0
+  let new1_done := 0
+  let j1 := if r1_x1 ≤ x2 then
+      if x2 < r1_x2 then
+        let x2 := r1_x2
+        (x2, new1_0, new1_1, new1_2, new1_3, new1_done, x1)
+      else
+        (x2, new1_0, new1_1, new1_2, new1_3, new1_done, x1)
+    else
+      let new1_0 := x1
+      let new1_1 := y1
+      let new1_2 := x2
+      let new1_3 := y2
+      let new1_done := 1
+      let x1 := r1_x1
+      let x2 := r1_x2
+      (x2, new1_0, new1_1, new1_2, new1_3, new1_done, x1)
+  let x2 := j1.1
+  let new1_0 := j1.2.1
+  let new1_1 := j1.2.2.1
+  let new1_2 := j1.2.2.2.1
+  let new1_3 := j1.2.2.2.2.1
+  let new1_done := j1.2.2.2.2.2.1
+  let x1 := j1.2.2.2.2.2.2
+  let r1 := (r1 + 1) % 18446744073709551616
+  if r1 ≠ r1_end then
+    (1, x1, x2, new1_0, new1_1, new1_2, new1_3, new1_done, r1)
+  else
+    (0, x1, x2, new1_0, new1_1, new1_2, new1_3, new1_done, r1)
+
+/-- `pixman/pixman-region32.c:pixman_region_union_o`, one iteration of loop #2 (mixed mode).  Arguments: r2_end : uint64_t, y1 : int32_t, y2 : int32_t, x1 : int32_t, x2 : int32_t, r2 : uint64_t, r2_x1 : int32_t, r2_x2 : int32_t.  Result: (status : 0 loop ends / 1 next iteration / 2.. n-th return, x1 : int32_t, x2 : int32_t, new1_0 : int32_t, new1_1 : int32_t, new1_2 : int32_t, new1_3 : int32_t, new1_done : uint32_t, r2 : uint64_t). -/
+def region32_union_o_r2_step (r2_end : Nat) (y1 : Int) (y2 : Int) (x1 : Int) (x2 : Int) (r2 : Nat) (r2_x1 : Int) (r2_x2 : Int) : Int × Int × Int × Int × Int × Int × Int × Nat × Nat :=
+  let new1_0 := 0
+  let new1_1 := 0
+  let new1_2 := 0
+  let new1_3 := 0
+  let new1_done := 0
+  let j1 := if r2_x1 ≤ x2 then
+      if x2 < r2_x2 then
+        let x2 := r2_x2
+        (x2, new1_0, new1_1, new1_2, new1_3, new1_done, x1)
+      else
+        (x2, new1_0, new1_1, new1_2, new1_3, new1_done, x1)
+    else
+      let new1_0 := x1
+      let new1_1 := y1
+      let new1_2 := x2
+      let new1_3 := y2
+      let new1_done := 1
+      let x1 := r2_x1
+      let x2 := r2_x2
+      (x2, new1_0, new1_1, new1_2, new1_3, new1_done, x1)
+  let x2 := j1.1
+  let new1_0 := j1.2.1
+  let new1_1 := j1.2.2.1
+  let new1_2 := j1.2.2.2.1
+  let new1_3 := j1.2.2.2.2.1
+  let new1_done := j1.2.2.2.2.2.1
+  let x1 := j1.2.2.2.2.2.2
+  let r2 := (r2 + 1) % 18446744073709551616
+  if r2 ≠ r2_end then
+    (1, x1, x2, new1_0, new1_1, new1_2, new1_3, new1_done, r2)
+  else
+    (0, x1, x2, new1_0, new1_1, new1_2, new1_3, new1_done, r2)
+
+/-- `pixman/pixman-region32.c:pixman_region_subtract_o`, one iteration of loop #0 (mixed mode).  Arguments: r1_end : uint64_t, r2_end : uint64_t, y1 : int32_t, y2 : int32_t, x1 : int32_t, r1 : uint64_t, r2 : uint64_t, r2_x2 : int32_t, r2_x1 : int32_t, r1_x2 : int32_t, r1n_x1 : int32_t.  Result: (status : 0 loop ends / 1 next iteration / 2.. n-th return, x1 : int32_t, new1_0 : int32_t, new1_1 : int32_t, new1_2 : int32_t, new1_3 : int32_t, new1_done : uint32_t, new2_0 : int32_t, new2_1 : int32_t, new2_2 : int32_t, new2_3 : int32_t, new2_done : uint32_t, r1 : uint64_t, r2 : uint64_t). -/
+def region32_subtract_o_step (r1_end : Nat) (r2_end : Nat) (y1 : Int) (y2 : Int) (x1 : Int) (r1 : Nat) (r2 : Nat) (r2_x2 : Int) (r2_x1 : Int) (r1_x2 : Int) (r1n_x1 : Int) : Int × Int × Int × Int × Int × Int × Nat × Int × Int × Int × Int × Nat × Nat × Nat :=
+  let new1_0 := 0
+  let new1_1 := 0
+  let new1_2 := 0
+  let new1_3 := 0
+  let new1_done := 0
+  let new2_0 := 0
+  let new2_1 := 0
+  let new2_2 := 0
+  let new2_3 := 0
+  let new2_done := 0
+  let j2 := if r2_x2 ≤ x1 then
+      let r2 := (r2 + 1) % 18446744073709551616
+      (r2, x1, r1, new1_0, new1_1, new1_2, new1_3, new1_done, new2_0, new2_1, new2_2, new2_3, new2_done)
+    else
+      if r2_x1 ≤ x1 then
+        let x1 := r2_x2
+        if x1 ≥ r1_x2 then
+          let r1 := (r1 + 1) % 18446744073709551616
+          if r1 ≠ r1_end then
+            let x1 := r1n_x1
+            (r2, x1, r1, new1_0, new1_1, new1_2, new1_3, new1_done, new2_0, new2_1, new2_2, new2_3, new2_done)
+          else
+            (r2, x1, r1, new1_0, new1_1, new1_2, new1_3, new1_done, new2_0, new2_1, new2_2, new2_3, new2_done)
+        else
+          let r2 := (r2 + 1) % 18446744073709551616
+          (r2, x1, r1, new1_0, new1_1, new1_2, new1_3, new1_done, new2_0, new2_1, new2_2, new2_3, new2_done)
+      else
+        if r2_x1 < r1_x2 then
+          let new1_0 := x1
+          let new1_1 := y1
+          let new1_2 := r2_x1
+          let new1_3 := y2
+          let new1_done := 1
+          let x1 := r2_x2
+          if x1 ≥ r1_x2 then
+            let r1 := (r1 + 1) % 18446744073709551616
+            if r1 ≠ r1_end then
+              let x1 := r1n_x1
+              (r2, x1, r1, new1_0, new1_1, new1_2, new1_3, new1_done, new2_0, new2_1, new2_2, new2_3, new2_done)
+            else
+              (r2, x1, r1, new1_0, new1_1, new1_2, new1_3, new1_done, new2_0, new2_1, new2_2, new2_3, new2_done)
+          else
+            let r2 := (r2 + 1) % 18446744073709551616
+            (r2, x1, r1, new1_0, new1_1, new1_2, new1_3, new1_done, new2_0, new2_1, new2_2, new2_3, new2_done)
+        else
+          let j1 := if r1_x2 > x1 then
+              let new2_0 := x1
+              let new2_1 := y1
+              let new2_2 := r1_x2
+              let new2_3 := y2
+              let new2_done := 1
+              (new2_0, new2_1, new2_2, new2_3, new2_done)
+            else
+              (new2_0, new2_1, new2_2, new2_3, new2_done)
+          let new2_0 := j1.1
+          let new2_1 := j1.2.1
+          let new2_2 := j1.2.2.1
+          let new2_3 := j1.2.2.2.1
+          let new2_done := j1.2.2.2.2
+          let r1 := (r1 + 1) % 18446744073709551616
+          if r1 ≠ r1_end then
+            let x1 := r1n_x1
+            (r2, x1, r1, new1_0, new1_1, new1_2, new1_3, new1_done, new2_0, new2_1, new2_2, new2_3, new2_done)
+          else
+            (r2, x1, r1, new1_0, new1_1, new1_2, new1_3, new1_done, new2_0, new2_1, new2_2, new2_3, new2_done)
+  let r2 := j2.1
+  let x1 := j2.2.1
+  let r1 := j2.2.2.1
+  let new1_0 := j2.2.2.2.1
+  let new1_1 := j2.2.2.2.2.1
+  let new1_2 := j2.2.2.2.2.2.1
+  let new1_3 := j2.2.2.2.2.2.2.1
+  let new1_done := j2.2.2.2.2.2.2.2.1
+  let new2_0 := j2.2.2.2.2.2.2.2.2.1
+  let new2_1 := j2.2.2.2.2.2.2.2.2.2.1
+  let new2_2 := j2.2.2.2.2.2.2.2.2.2.2.1
+  let new2_3 := j2.2.2.2.2.2.2.2.2.2.2.2.1
+  let new2_done := j2.2.2.2.2.2.2.2.2.2.2.2.2
+  if (r1 ≠ r1_end) ∧ (r2 ≠ r2_end) then
+    (1, x1, new1_0, new1_1, new1_2, new1_3, new1_done, new2_0, new2_1, new2_2, new2_3, new2_done, r1, r2)
+  else
+    (0, x1, new1_0, new1_1, new1_2, new1_3, new1_done, new2_0, new2_1, new2_2, new2_3, new2_done, r1, r2)
+
+/-- `pixman/pixman-region32.c:pixman_region_subtract_o`, one iteration of loop #1 (mixed mode).  Arguments: r1_end : uint64_t, y1 : int32_t, y2 : int32_t, x1 : int32_t, r1 : uint64_t, r1_x2 : int32_t, r1n_x1 : int32_t.  Result: (status : 0 loop ends / 1 next iteration / 2.. n-th return, x1 : int32_t, new1_0 : int32_t, new1_1 : int32_t, new1_2 : int32_t, new1_3 : int32_t, new1_done : uint32_t, r1 : uint64_t). -/
+def region32_subtract_o_tail_step (r1_end : Nat) (y1 : Int) (y2 : Int) (x1 : Int) (r1 : Nat) (r1_x2 : Int) (r1n_x1 : Int) : Int × Int × Int × Int × Int × Int × Nat × Nat :=
+  let new1_0 := 0
+  let new1_1 := 0
+  let new1_2 := 0
+  let new1_3 := 0
+  let new1_done := 0
+  if r1 = r1_end then
+    (0, x1, new1_0, new1_1, new1_2, new1_3, new1_done, r1)
+  else
+    let new1_0 := x1
+    let new1_1 := y1
+    let new1_2 := r1_x2
+    let new1_3 := y2
+    let new1_done := 1
+    let r1 := (r1 + 1) % 18446744073709551616
+    if r1 ≠ r1_end then
+      let x1 := r1n_x1
+      (1, x1, new1_0, new1_1, new1_2, new1_3, new1_done, r1)
+    else
+      (1, x1, new1_0, new1_1, new1_2, new1_3, new1_done, r1)
+
+/-- `pixman/pixman-region32.c:pixman_region32_translate`, then-branch of if #9 (mixed mode).  Arguments: box0_x1 : int32_t, box0_y1 : int32_t, box0_x2 : int32_t, box0_y2 : int32_t, data_ptr : uint64_t, data_size : int64_t.  Result: (status : 0 loop ends / 1 next iteration / 2.. n-th return, ext_x1 : int32_t, ext_y1 : int32_t, ext_x2 : int32_t, ext_y2 : int32_t, data_ptr : uint64_t). -/
+def region32_translate_single (box0_x1 : Int) (box0_y1 : Int) (box0_x2 : Int) (box0_y2 : Int) (data_ptr : Nat) (data_size : Int) : Int × Int × Int × Int × Int × Nat :=
+  let ext_x1 := box0_x1
+  let ext_y1 := box0_y1
+  let ext_x2 := box0_x2
+  let ext_y2 := box0_y2
+  let data_ptr := 0
+  (0, ext_x1, ext_y1, ext_x2, ext_y2, data_ptr)
+
 end Pixman.Gen.CFuncs
